@@ -57,6 +57,8 @@ class MultiTargetMCSU2(Gate):
             check_u2(np.asarray(unitaries))
             check_su2(unitaries)
 
+        if isinstance(unitaries, list):
+            unitaries = [np.asarray(unitary) for unitary in unitaries]
         self.unitaries = unitaries
         self.controls = QuantumRegister(num_controls)
         self.target = QuantumRegister(num_target)
